@@ -16,11 +16,13 @@ from harness import common as C
 from harness import dataset as D
 
 STEPS = [600, 900, 1200, 1800, 3600]
+# steps that are not a whole number of minutes, or whose hours are not exactly representable (3900/3600*3600 < 3900)
+ODD_STEPS = [3900, 100, 90, 460]
 GRID_STEPS = [0.5, 1.0, 2.0, 2.5]
 
 
-def make_plan(rng, n_events=None, step=None, grid_step=None, varying_et=True, noise=False):
-    step = step or rng.choice(STEPS)
+def make_plan(rng, n_events=None, step=None, grid_step=None, varying_et=True, noise=False, gaps=False, odd_steps=False):
+    step = step or rng.choice(STEPS + ODD_STEPS if odd_steps else STEPS)
     step_h = step / 3600.0
     sigma = rng.choice([0.25, 0.5, 0.125])
     thr_j = rng.choice([2.0, 4.0, 5.0])
@@ -43,10 +45,19 @@ def make_plan(rng, n_events=None, step=None, grid_step=None, varying_et=True, no
         events.append(dict(m_before=m, m_after=m_after, k=k, over=over, rec_len=rec_len))
         m = m_after + rec_len
     et = [round(0.05 + 0.01 * rng.randrange(0, 20), 4) for _ in range(400)] if varying_et else [0.125] * 400
+    gap = None
+    if gaps and rng.random() < 0.4:
+        # 1-2 water-level samples missing in mid-recession: the piece is cut there (what follows the gap has seen
+        # no rain in its own stretch and is not recorded)
+        cands = [i for i, ev in enumerate(events) if ev['rec_len'] >= 7]
+        if cands:
+            e = rng.choice(cands)
+            j = rng.randrange(3, events[e]['rec_len'] - 3)
+            gap = (e, j, rng.randrange(1, 3))
     return dict(step=step, sigma=sigma, thr_j=thr_j, lattice=lattice, events=events,
                 t0=rng.choice([1361318400, 1356998400, 946684800]) // step * step,
                 grid_step=grid_step or rng.choice(GRID_STEPS), et=et,
-                lead_dry=rng.randrange(1, 4), step_h=step_h,
+                lead_dry=rng.randrange(1, 4), step_h=step_h, gap=gap,
                 noise=[rng.randrange(-4, 5) / 64.0 if noise else 0.0 for _ in range(600)])
 
 
@@ -101,7 +112,15 @@ def realise(plan):
     for p, r in zip(pieces, rises[1:] + [None]):
         if r is not None:
             p['last'] = r['start'] - 1
-    return rain, zeta, thr_s, dict(pieces=pieces, rises=rises)
+    missing = []
+    if plan.get('gap'):
+        e, j, ln = plan['gap']
+        p = pieces[e]
+        a = p['first'] + j
+        if a + ln <= p['last'] - 2:
+            missing = list(range(a, a + ln))
+            p['last'] = a - 1
+    return rain, zeta, thr_s, dict(pieces=pieces, rises=rises, missing=missing)
 
 
 def plan_to_dataset(plan, shift=0, tz='UTC', fmt_time=None):
@@ -110,7 +129,8 @@ def plan_to_dataset(plan, shift=0, tz='UTC', fmt_time=None):
     n = len(zeta)
     rrows = [(t0 + i * step, rain[i]) for i in range(n)]
     erows = [(t0 + i * step, plan['et'][i % len(plan['et'])]) for i in range(n + 1)]
-    wrows = [(t0 + i * step, zeta[i]) for i in range(n)]
+    miss = set(truth.get('missing', ()))
+    wrows = [(t0 + i * step, zeta[i]) for i in range(n) if i not in miss]
     kw = {}
     if fmt_time is not None:
         kw['fmt_time'] = fmt_time
